@@ -9,8 +9,8 @@ from __future__ import annotations
 import itertools
 
 from hypothesis import strategies as st
-from xdsl.dialects import arith, scf
-from xdsl.dialects.builtin import IndexType, IntegerAttr
+from xdsl.dialects import affine, arith, memref, scf
+from xdsl.dialects.builtin import DYNAMIC_INDEX, IndexType, IntegerAttr
 from xdsl.ir import BlockArgument, OpResult
 from xdsl.traits import is_side_effect_free
 from xdsl.transforms.dead_code_elimination import dce
@@ -18,7 +18,7 @@ from xdsl.transforms.dead_code_elimination import dce
 from vlib import gen_c17 as G
 from vlib.ctx import PassTimeout, parse, run_pass, shared_ctx, time_limit, to_text
 from vlib.interp import InterpError, StepBudget, UseBeforeDef, dominance_errors
-from vlib.machine_c17 import compare, run
+from vlib.machine_c17 import compare_all, run, same_sequence
 from vlib.runner import Info, Outside, Reject, Sub, Violation
 
 ID = "C17"
@@ -106,14 +106,85 @@ def features(mod):
     return f
 
 
+def _nearest_for(op):
+    p = op.parent_op()
+    while p is not None and not isinstance(p, scf.ForOp):
+        p = p.parent_op()
+    return p
+
+
+def _dim_target(dim_op):
+    """The op whose value MoveMemrefDims substitutes for `dim_op` when it looks through subview sizes
+    (same walk as get_new_dim_op, read-only), as (kind, op) or None."""
+    d = dim_op
+    for _ in range(8):
+        idx = const_of(d.index)
+        if idx is None or isinstance(d.source, BlockArgument):
+            return None
+        o = d.source.owner
+        if not isinstance(o, memref.SubviewOp):
+            return None
+        ss = o.static_sizes.get_values()
+        if idx >= len(ss) or ss[idx] != DYNAMIC_INDEX:
+            return None
+        so = o.sizes[sum(1 for i in range(idx) if ss[i] == DYNAMIC_INDEX)].owner
+        if isinstance(so, arith.ConstantOp):
+            return ("const", so)
+        if isinstance(so, affine.MinOp):
+            return ("amin", so)
+        if isinstance(so, memref.DimOp):
+            if _nearest_for(so) is not _nearest_for(dim_op):
+                return ("dim", so)
+            d = so
+            continue
+        return None
+    return None
+
+
 def reuse_features(mod):
     """Structural features of `mod` that name known weak spots of reuse-memref-allocs."""
     f = set()
     for op in mod.walk():
-        if op.name == "memref.dim":
+        if isinstance(op, memref.DimOp):
             src = op.source
             if isinstance(src, BlockArgument) and src.index >= 1 and isinstance(src.block.parent_op(), scf.ForOp):
                 f.add("dim-of-loop-carried-memref")
+            loop = _nearest_for(op)
+            if loop is None:
+                continue
+            t = _dim_target(op)
+            if t is not None and not loop.is_ancestor(t[1]):
+                if t[0] == "amin":
+                    f.add("amin-outside-dim-loop")
+                elif _nearest_for(t[1]) is not None:
+                    f.add("dim-size-defined-in-enclosing-loop")
+    # a buffer allocated inside a loop that reaches an scf.yield of an scf.for (directly, through a subview, or through the
+    # iter_args / results of other loops) is handed to a later iteration
+    flow = set()
+    for op in mod.walk():
+        if isinstance(op, memref.AllocOp) and _nearest_for(op) is not None:
+            flow.add(op.results[0])
+    changed = bool(flow)
+    while changed:
+        changed = False
+        for op in mod.walk():
+            new = []
+            if isinstance(op, memref.SubviewOp) and op.source in flow:
+                new.append(op.results[0])
+            elif isinstance(op, scf.ForOp):
+                for k, init in enumerate(op.iter_args):
+                    if init in flow:
+                        new.append(op.body.block.args[k + 1])
+            elif isinstance(op, scf.YieldOp) and isinstance(op.parent_op(), scf.ForOp):
+                for k, v in enumerate(op.operands):
+                    if v in flow:
+                        f.add("alloc-carried-to-next-iteration")
+                        new.append(op.parent_op().results[k])
+                        new.append(op.parent_op().body.block.args[k + 1])
+            for v in new:
+                if v not in flow:
+                    flow.add(v)
+                    changed = True
     return f
 
 
@@ -165,7 +236,10 @@ def _changes(p0, p1, pname):
 
 # --------------------------------------------------------------------------------------- signatures
 
-def sig_trace(pname, feats, mis, amin_replaced):
+BOUND_KINDS = ("index-operand-is-bound-value", "view-offset-is-bound-value", "event-sequence-follows-bound")
+
+
+def sig_trace(pname, feats, mis):
     if pname == CANON:
         if "nondiv" in feats:
             return "canon-for:change-step:ub-not-multiple-of-step:trace-differs"
@@ -174,6 +248,10 @@ def sig_trace(pname, feats, mis, amin_replaced):
         if "both-ub-negative" in feats:
             return "canon-for:merge:both-ub-negative:trace-differs"
         return "canon-for:trace:" + mis["kind"]
+    if mis["kind"] in BOUND_KINDS:
+        return "reuse-allocs:affine-min-replaced-by-bound:tagged-op-observes-the-bound"
+    if mis["kind"] == "buffer-shared-while-both-live" and "alloc-carried-to-next-iteration" in feats:
+        return "reuse-allocs:alloc-carried-to-next-iteration:hoisted:buffers-shared-while-both-live"
     return "reuse-allocs:trace:" + mis["kind"]
 
 
@@ -184,6 +262,10 @@ def sig_invalid(pname, feats, what):
         return "canon-for:invalid-ir:" + what
     if "dim-of-loop-carried-memref" in feats:
         return "reuse-allocs:dim-of-loop-carried-memref:hoisted-above-loop:invalid-ir"
+    if "dim-size-defined-in-enclosing-loop" in feats:
+        return "reuse-allocs:dim-size-defined-in-enclosing-loop:moved-below-its-uses:invalid-ir"
+    if "amin-outside-dim-loop" in feats:
+        return "reuse-allocs:affine-min-outside-dim-loop:bound-defined-below-its-uses:invalid-ir"
     return "reuse-allocs:invalid-ir:" + what
 
 
@@ -259,6 +341,8 @@ def prop(r):
         if replaced:
             classes.add(f"{short}:did:amin-replaced-by-bound")
         new_runs = []
+        hits: list = []
+        det_common = None
         for vec, m0 in zip(vectors, cur_runs):
             if m0 is None:
                 new_runs.append(None)
@@ -274,28 +358,38 @@ def prop(r):
             if m1 is None:
                 continue
             n_exec += 1
-            mis = compare(m0.trace, m1.trace)
-            if mis is None:
+            mis = compare_all(m0.trace, m1.trace)
+            if not mis:
                 continue
-            det = mkdetail(after=to_text(new), args=vec, arg_names=built.arg_names, mismatch=mis)
-            if replaced:
-                # documented intent of MoveMemrefDims: an affine.min bound may be replaced by its maximum. The reference is then
-                # the original program with exactly those affine.min ops evaluating to their constant bound.
+            caps = (replaced or frozenset(u0)) if pname == REUSE else frozenset()
+            grew = False
+            if caps:
+                # documented intent of MoveMemrefDims: an affine.min bound may be replaced by its maximum. Second reference:
+                # the original program with those affine.min ops evaluating to their constant bound. A memref dimension may be
+                # the original one or the one of that reference; nothing else may differ.
                 try:
-                    mc = _run(cur, vec, replaced)
+                    mc = _run(cur, vec, caps)
                 except InterpError:
                     mc = None
-                mis_c = compare(mc.trace, m1.trace) if mc is not None else mis
-                if mc is not None and mis_c is None:
-                    mis_l = compare(m0.trace, m1.trace, lenient_dims=True)
-                    if mis_l is None:
-                        classes.add(f"{short}:amin-bound:memref-dims-grew")
-                        continue
-                    raise Violation("reuse-allocs:affine-min-replaced-by-bound:" + mis_l["kind"], dict(det, mismatch=mis_l))
-                if mc is not None:
-                    det["mismatch_vs_bound_forced_original"] = mis_c
-                    mis = mis_c
-            raise Violation(sig_trace(pname, feats, mis, replaced), det)
+                if mc is not None and same_sequence(m0.trace, m1.trace):
+                    mis = compare_all(m0.trace, m1.trace, alt=mc.trace, alt_explains_index=bool(replaced))
+                    grew = True
+                elif mc is not None and replaced and same_sequence(mc.trace, m1.trace):
+                    mis = [dict(kind="event-sequence-follows-bound", original_len=len(m0.trace), transformed_len=len(m1.trace))]
+                    mis += compare_all(mc.trace, m1.trace)
+            if not mis:
+                if grew:
+                    classes.add(f"{short}:amin-bound:memref-dims-grew")
+                continue
+            if det_common is None:
+                det_common = mkdetail(after=to_text(new), arg_names=built.arg_names)
+            for m in mis:
+                sg = sig_trace(pname, feats, m)
+                if sg not in [h[0] for h in hits]:
+                    hits.append((sg, dict(det_common, args=vec, mismatch=m)))
+        if hits:
+            # every distinct kind of mismatch of this case, classified; the runner raises the first one that is not a known finding
+            return Info(nontrivial=False, classes=(), evals=max(1, n_exec), known=hits)
         cur, cur_runs = new, new_runs
         last = new
     if zero:
